@@ -165,6 +165,37 @@ func (fr *Frame) analyse() {
 		}
 	}
 	// the RPO must respect "all non-back-edge preds first": plain RPO of a reducible CFG does.
+	// Second pass: the same RPO, but successors that leave loops are visited first by the DFS, so the
+	// blocks of a loop body come before the code after the loop; an obligation at a back edge then does
+	// not carry the facts of the continuation as hypotheses.
+	depth := func(b *ssa.BasicBlock) int {
+		d := 0
+		for _, li := range fr.loops {
+			if li.blocks[b] {
+				d++
+			}
+		}
+		return d
+	}
+	seen2 := map[*ssa.BasicBlock]bool{}
+	var post2 []*ssa.BasicBlock
+	var dfs2 func(b *ssa.BasicBlock)
+	dfs2 = func(b *ssa.BasicBlock) {
+		seen2[b] = true
+		succs := append([]*ssa.BasicBlock(nil), b.Succs...)
+		sort.SliceStable(succs, func(i, j int) bool { return depth(succs[i]) < depth(succs[j]) })
+		for _, s := range succs {
+			if !seen2[s] {
+				dfs2(s)
+			}
+		}
+		post2 = append(post2, b)
+	}
+	dfs2(fn.Blocks[0])
+	fr.order = fr.order[:0]
+	for i := len(post2) - 1; i >= 0; i-- {
+		fr.order = append(fr.order, post2[i])
+	}
 	// loop ordinals by source position of the header's first positioned instruction
 	var hs []*ssa.BasicBlock
 	for h := range fr.loops {
@@ -624,7 +655,7 @@ func (e *Enc) fpFun(structKey, field string) string {
 		e.declRaw(fmt.Sprintf("(declare-fun %s (Int) Int)", n))
 		// interior pointers are injective in their base object and never collide with object references
 		e.declRaw(fmt.Sprintf("(declare-fun %s_inv (Int) Int)", n))
-		e.declRaw(fmt.Sprintf("(assert (forall ((r Int)) (! (and (= (%s_inv (%s r)) r) (< (%s r) 0)) :pattern ((%s r)))))", n, n, n, n))
+		e.declRaw(fmt.Sprintf("(assert (forall ((r Int)) (! (and (= (%s_inv (%s r)) r) (< (%s r) 0) (= (mod (%s r) 2) 0)) :pattern ((%s r)))))", n, n, n, n, n))
 		e.fpFuns = append(e.fpFuns, n)
 	}
 	return n
